@@ -54,6 +54,18 @@ func (c16) Generate(r *sim.Rand, tier string) *sim.Scenario {
 	if r.Bool(0.1) {
 		O = r.Range(5, 18)
 	}
+	bigBatch := false
+	bigDims := false
+	switch x := r.Intn(2000); {
+	case x < 1:
+		D, O, bigDims = r.Range(4100, 5300), r.Range(1, 2), true // rows of thousands of features
+	case x < 2:
+		D, O, bigBatch, bigDims = r.Range(20, 60), r.Range(2, 4), true, true // batches of hundreds of rows
+	}
+	gRows := 40 // rows of upstream weights a back-propagation step carries (the largest batch)
+	if bigBatch {
+		gRows = 700
+	}
 	sc.Cfg["D"], sc.Cfg["O"] = float64(D), float64(O)
 	sc.Cfg["rngseed"] = float64(r.Intn(1 << 30))
 	if r.Bool(0.5) {
@@ -82,7 +94,10 @@ func (c16) Generate(r *sim.Rand, tier string) *sim.Scenario {
 		max *= 3 // long histories
 	}
 	n := r.Range(2, max)
-	long := r.Bool(0.004)
+	if bigDims {
+		n = r.Range(2, 8) // few, heavy steps
+	}
+	long := !bigDims && r.Bool(0.004)
 	if long {
 		n = r.Range(300, 1200) // a long-lived layer: hundreds of forwards, back-propagations, swaps and resets
 	}
@@ -131,7 +146,7 @@ func (c16) Generate(r *sim.Rand, tier string) *sim.Scenario {
 			h := pending[i]
 			pending = append(pending[:i], pending[i+1:]...)
 			// G sized for the largest batch; executor uses the first batch*O values
-			sc.Steps = append(sc.Steps, sim.Step{C: 0, Op: "backprop", In: []int{h}, F: randData(r, 40*O, true), Out: -1})
+			sc.Steps = append(sc.Steps, sim.Step{C: 0, Op: "backprop", In: []int{h}, F: randData(r, gRows*O, true), Out: -1})
 		default:
 			batch := r.Range(1, 6)
 			if r.Bool(0.15) {
@@ -139,6 +154,9 @@ func (c16) Generate(r *sim.Rand, tier string) *sim.Scenario {
 			}
 			if r.Bool(pBatch1) {
 				batch = 1
+			}
+			if bigBatch && r.Bool(0.7) {
+				batch = r.Range(200, 700)
 			}
 			st := sim.Step{C: 0, Op: "forward", N: batch, F: randData(r, batch*D, true), B: r.Bool(0.5), Out: nf}
 			if D == O && r.Bool(pStack) {
@@ -155,7 +173,7 @@ func (c16) Generate(r *sim.Rand, tier string) *sim.Scenario {
 	}
 	for _, h := range pending {
 		if r.Bool(0.7) {
-			sc.Steps = append(sc.Steps, sim.Step{C: 0, Op: "backprop", In: []int{h}, F: randData(r, 40*O, true), Out: -1})
+			sc.Steps = append(sc.Steps, sim.Step{C: 0, Op: "backprop", In: []int{h}, F: randData(r, gRows*O, true), Out: -1})
 		}
 	}
 	return sc
